@@ -249,6 +249,13 @@ def Cache.onWriteSame (k : Cache) (c : Core) (a : Attr) : Cache :=
   | .mask => { k with wod := k.wod.map (·.unshareM c.m) }
   | _ => k
 
+/-- a content-preserving rebinding may still change the REPRESENTATION of the mask (a single bool expanded to an
+    array of that bool, indexer.py:175-179; an array copied): the stamp stays, the representation fact is updated -/
+def Core.sameRep (c : Core) (a : Attr) (post : Facts) : Core :=
+  match a with
+  | .mask => { c with mrep := post.mrep }
+  | _ => c
+
 def Cache.del (k : Cache) : Key → Cache
   | .antimask => { k with anti := none }
   | .corners => { k with corn := none }
@@ -267,7 +274,7 @@ def Cache.freeze (k : Cache) (en : Bool) : Cache :=
     (unmodelled) call at a `mayFill` point -/
 def execEvent (en : Bool) (post : Facts) (e : Event) (fills : List Query) (s : St) : St :=
   match e with
-  | .write a .same => ⟨s.core, s.cache.onWriteSame s.core a⟩
+  | .write a .same => ⟨s.core.sameRep a post, s.cache.onWriteSame s.core a⟩
   | .write a md => ⟨s.core.write a md post, s.cache.onWrite s.core a md⟩
   | .cacheClear => { s with cache := Cache.empty }
   | .cacheDel k => { s with cache := s.cache.del k }
